@@ -21,6 +21,8 @@ import itertools
 import os
 from fractions import Fraction
 
+import shutil
+
 import numpy as np
 
 from lib import floatq as fq
@@ -274,8 +276,29 @@ def execute(ctx, spec, inp, ex, idx, tag=""):
     fmt = spec["fmt"]
     cols, kwargs = inp["cols"], dict(inp["kwargs"])
     cache = impl.fresh_dir(ctx, "cat_%d%s" % (idx, tag))
+    twin_history = False
     if ex["history"]:
-        old_catalog(ctx, cache, spec["ncent"])
+        # every other seed the older catalog is a twin: the same table with other weights / redshifts (every patch file
+        # has the size the new one will have), created the same way and read completely in this process before it
+        # is overwritten; otherwise a foreign catalog with other records, columns and patch count
+        twin_history = (spec["dseed"] + idx) % 3 != 0 and any(k in cols for k in ("w", "z")) and "patch_num" not in kwargs
+        if twin_history:
+            old_cols = dict(cols)
+            for k in ("w", "z"):
+                if k in old_cols:
+                    old_cols[k] = np.asarray(old_cols[k], dtype="f8") * 2.0 + 0.125
+            impl.set_threads(16)
+            try:
+                old = impl.Catalog.from_dataframe(cache, impl.make_df(old_cols), chunksize=cs, max_workers=1, **kwargs)
+                for patch in old.values():
+                    patch.load_data()
+                impl.patch_records(impl.Catalog(cache, max_workers=1))
+                ctx.bump("overwrite_history:twin-read-before-overwrite")
+            except Exception:
+                twin_history = False
+                shutil.rmtree(cache, ignore_errors=True)
+        if not twin_history:
+            old_catalog(ctx, cache, spec["ncent"])
         kwargs["overwrite"] = True
     if ex["progress"]:
         kwargs["progress"] = True
@@ -353,7 +376,7 @@ def execute(ctx, spec, inp, ex, idx, tag=""):
     for p, ids in impl_patches:
         for i in ids:
             assign[i] = p
-    import shutil
+    pass  # shutil is imported at module level
     shutil.rmtree(cache, ignore_errors=True)
     return dict(impl_patches=impl_patches, assign=assign, sched=sched, lost=lost, foreign=foreign, dtype_bad=dtype_bad,
                 reopen_same=reopen_same)
@@ -529,7 +552,7 @@ def specs(ctx):
                         cent_as=rng.choice(["coords", "coords", "catalog"]), extra_num=rng.random() < 0.25,
                         pidpat=rng.choice(PIDPATS), piddtype=rng.choice(["i8", "i8", "i4"]),
                         wvia=rng.choice(["arg", "arg", "env", "cap"]), progress=rng.random() < 0.3,
-                        history=rng.random() < 0.15)
+                        history=rng.random() < 0.3)
             if rng.random() < 0.12 and n >= 2:
                 # generated centres (patch_num): at least two records per patch to be
                 spec["mode"] = "create"
@@ -572,7 +595,7 @@ def matrix_specs(ctx):
             spec["rgsize"] = rng.choice([1, max(1, cs - 1), cs, cs + 1, max(1, n)])
         pools = ["random", "reverse", "identity"]
         execs = [dict(workers=0, pool="identity", wvia="arg", progress=False, history=False),
-                 dict(workers=0, pool="identity", wvia=rng.choice(["env", "cap"]), progress=True, history=rng.random() < 0.3),
+                 dict(workers=0, pool="identity", wvia=rng.choice(["env", "cap"]), progress=True, history=rng.random() < 0.6),
                  dict(workers=2, pool=rng.choice(pools), wvia=rng.choice(["arg", "env", "cap"]), progress=rng.random() < 0.5,
                       history=rng.random() < 0.2, seed=rng.randrange(10 ** 6)),
                  dict(workers=rng.choice([3, 4]), pool=rng.choice(pools), wvia=rng.choice(["arg", "env", "cap"]),
